@@ -269,6 +269,21 @@ def declared_cases(chk):
     return D
 
 
+# statements matched by nop_regexes, executed WITH parameters under every paramstyle: they are answered with the success row, and
+# description / describe-after must be that row's, every time it is read
+def nopparams_cases():
+    N = []
+    for style, ph, params in (("qmark", "?", ["s3://b", 2]), ("pyformat", "%s", ["s3://b", 2]), ("format", "%s", ["s3://b", 2]),
+                              ("named", None, {"u": "s3://b", "n": 2}), ("qmark", "?", [None]), ("qmark", "?", [1.5, "x", True])):
+        if style == "named":
+            sql = "create stage st1 url = %(u)s max = %(n)s"
+        else:
+            sql = "create stage st1 url = " + " , ".join([ph] * len(params))
+        N.append({"kind": "nopparams", "style": style, "sql": sql, "params": params})
+    N.append({"kind": "nopparams", "style": "qmark", "sql": "create stage st1", "params": None})
+    return N
+
+
 FINDING_OF_KIND = {"seededQuery": "C06/describe-seeded-query", "rawCommand": "C06/describe-raw-command", "beforeExecute": "C06/describe-before-execute"}
 
 # ------------------------------------------------------------------------------------------------
@@ -635,6 +650,44 @@ def _real_declared(conn, case):
     return out
 
 
+def _real_nopparams(case):
+    import fakesnow
+    import snowflake.connector
+    style = case["style"]
+    old = snowflake.connector.paramstyle
+    snowflake.connector.paramstyle = "pyformat" if style == "named" else style
+    try:
+        with fakesnow.patch(nop_regexes=[r"^create stage\b"]):
+            conn = snowflake.connector.connect(database="db1", schema="s1")
+            _fixture(conn)
+            cur = conn.cursor()
+            cur.execute("select c0, c13 from tt")       # an earlier, differently shaped result on the same cursor
+            params = case["params"]
+            if isinstance(params, list):
+                params = tuple(params)
+            r = {}
+            try:
+                cur.execute(case["sql"], params)
+            except Exception as e:
+                return {"exec_error": f"{type(e).__name__}: {str(e)[:100]}"}
+            r["rowcount"] = cur.rowcount
+            reads = []
+            for _ in range(2):
+                try:
+                    reads.append(_meta(cur.description))
+                except Exception as e:
+                    reads.append(f"raises {type(e).__name__}: {str(e)[:80]}")
+            r["reads"] = reads
+            r["rows"] = [list(x) for x in cur.fetchall()]
+            try:
+                reads.append(_meta(cur.description))
+            except Exception as e:
+                reads.append(f"raises {type(e).__name__}: {str(e)[:80]}")
+            return r
+    finally:
+        snowflake.connector.paramstyle = old
+
+
 def _real_seedpure(case):
     import fakesnow
     import snowflake.connector
@@ -700,6 +753,8 @@ def _worker_raw(shard):
             out[i] = _real_descfx(c)
         elif c["kind"] == "script":
             out[i] = _real_script(c)
+        elif c["kind"] == "nopparams":
+            out[i] = _real_nopparams(c)
     return [out[i] for i in range(len(shard))]
 
 
@@ -919,6 +974,25 @@ def _check_declared(chk, case, real, drv):
             return
 
 
+def _check_nopparams(chk, case, real, drv):
+    chk.case(("nopparams", case["style"], case["sql"], str(case["params"])), nontrivial=True)
+    chk.count(f"nop_regexes+params:{case['style']}")
+    where = f"`{case['sql']}` with params {case['params']!r} (paramstyle {case['style']}, matched by nop_regexes)"
+    if "exec_error" in real:
+        chk.violation(f"{where}: execute raised {real['exec_error']} instead of answering with the success row", case, broken="C06_available_partial (no-op'd statements; correspondence)")
+        return
+    want = [["status", 2, None, None, 16777216]]
+    if real["rows"] != [["Statement executed successfully."]] or real["rowcount"] != 1:
+        chk.violation(f"{where}: rows {real['rows']}, rowcount {real['rowcount']} instead of the one success row", case, broken="C06_available_partial (no-op'd statements; correspondence)")
+        return
+    model = drv.ask("descr", "kind", "statusSelect")["describe"]
+    for i, d in enumerate(real["reads"]):
+        if d != want:
+            chk.violation(f"{where}: description read #{i} = {d}; the statement's result is the success row, so description must be {want} (model: {model})", case,
+                          broken="C06_available_partial / C06_description_stable (no-op'd statements with parameters; correspondence)")
+            return
+
+
 def _check_descfx(chk, case, real, drv):
     chk.case(("descfx", case["name"]), nontrivial=True)
     chk.count(f"describe():{case['mkind']}")
@@ -943,7 +1017,7 @@ def _corpus():
     return [json.loads(f.read_text())["case"] for f in sorted(d.glob("*.json"))] if d.is_dir() else []
 
 
-CHECKS = {"type": _check_type, "stmt": _check_stmt, "reexec": _check_reexec, "seedpure": _check_seedpure, "mutparams": _check_mutparams, "descfx": _check_descfx, "script": _check_script, "declared": _check_declared}
+CHECKS = {"type": _check_type, "stmt": _check_stmt, "reexec": _check_reexec, "seedpure": _check_seedpure, "mutparams": _check_mutparams, "descfx": _check_descfx, "script": _check_script, "declared": _check_declared, "nopparams": _check_nopparams}
 
 
 def _dispatch(chk, c, r, drv):
@@ -955,7 +1029,7 @@ def _dispatch(chk, c, r, drv):
 
 
 def run(chk) -> None:
-    cases = _corpus() + type_queries(chk) + kind_cases() + reexec_cases() + seedpure_cases() + mutparams_cases() + descfx_cases() + script_cases() + declared_cases(chk)
+    cases = _corpus() + type_queries(chk) + kind_cases() + reexec_cases() + seedpure_cases() + mutparams_cases() + descfx_cases() + script_cases() + declared_cases(chk) + nopparams_cases()
     chk.rule = ("A: every declared column type, every DECIMAL(p,s) 1<=p<=38 (quick: boundary + 120 sampled; thorough: all 741), 42 expression forms, 21 aggregate/arithmetic "
                 "forms, 6 bound-parameter forms: description vs types.py model on DuckDB's DESCRIBE types, describe(sql), DictCursor keys, width, Python types; "
                 "B: 56 statement kinds (incl. ALTER TABLE/VIEW/SESSION forms) x 3 read points with a twin that never reads description; C: purity snapshots; "
